@@ -131,9 +131,7 @@ func TestVerifC17Join(t *testing.T) {
 			return
 		}
 		if m.Server.Holder().Index("ik") == nil || m.Server.Holder().Index("ie") == nil {
-			// a member that was given no shard gets no resize instruction and so no schema until the next gossip exchange
-			r.Note("inconclusive:"+id, "the new member has not been given the schema yet (it received no shards)")
-			r.Cover("join:observed:member-without-schema")
+			r.Fail("join:new-member-without-schema", id, "the cluster is NORMAL with the new member, but the new member has no schema: every query it coordinates fails with 'index not found'", wit())
 			return
 		}
 		deadline := time.Now().Add(45 * time.Second)
